@@ -19,7 +19,7 @@ def functions(ns):
 
 def instantiations(tier, seed):
     out = []
-    skels = F.pl_family(tier, seed, n_quick=40, n_thorough=1000)
+    skels = F.pl_family(tier, seed, n_quick=100, n_thorough=1000)
     extra = [
         F.N("All", F.a(), F.b(), F.N("Any", F.c(), F.d(), id="B"), id="A"),
         F.AL(2, F.a(), F.b(), F.AL(1, F.c(), F.d(), id="B", sign=1), F.AM(1, F.c(), F.a(), id="C"), id="A", sign=1),
